@@ -217,7 +217,11 @@ func SelfTest() map[string]interface{} {
 	out := map[string]interface{}{"partial_order_reduction": "none implemented (every schedule within the bound is executed)"}
 	var execs int64
 	run := func(prog string, cfg interface{}, bounds []int) *TaskReport {
-		rep := Explore(Local{}, []Task{{Label: prog, Program: prog, Config: cfg, Horizon: 3000}}, Limits{Bounds: bounds})
+		var rungs []Rung
+		for _, b := range bounds {
+			rungs = append(rungs, Rung{Bound: b, MaxFree: -1})
+		}
+		rep := Explore(Local{}, []Task{{Label: prog, Program: prog, Config: cfg, Horizon: 3000}}, Limits{Rungs: rungs})
 		if !rep.Exhaustive {
 			InternalError("self-test %s: exploration incomplete", prog)
 		}
@@ -234,15 +238,15 @@ func SelfTest() map[string]interface{} {
 		for _, p := range tr.Passes {
 			var want []string
 			for x, pre := range ref {
-				if pre <= p.Bound {
+				if pre <= p.Rung.Bound {
 					want = append(want, fmt.Sprintf("done:x=%d", x))
 				}
 			}
 			got := p.OutcomeSet()
 			if setString(got) != setString(want) {
-				InternalError("self-test lost-update(rounds=%d) bound %d: outcomes %s, reference model says %s", rounds, p.Bound, setString(got), setString(want))
+				InternalError("self-test lost-update(rounds=%d) bound %d: outcomes %s, reference model says %s", rounds, p.Rung.Bound, setString(got), setString(want))
 			}
-			desc = append(desc, fmt.Sprintf("bound %d: %s (%d schedules)", p.Bound, setString(got), p.Executions))
+			desc = append(desc, fmt.Sprintf("bound %d: %s (%d schedules)", p.Rung.Bound, setString(got), p.Executions))
 		}
 		if rounds == 1 {
 			// hand-derived: no lost update without a preemption, one with
@@ -263,7 +267,7 @@ func SelfTest() map[string]interface{} {
 		tr := run(prog, nil, []int{0, 1, 2})
 		for _, p := range tr.Passes {
 			if setString(p.OutcomeSet()) != "{done:7}" {
-				InternalError("self-test %s bound %d: a spin-wait must terminate under fair scheduling, got %s", prog, p.Bound, setString(p.OutcomeSet()))
+				InternalError("self-test %s bound %d: a spin-wait must terminate under fair scheduling, got %s", prog, p.Rung.Bound, setString(p.OutcomeSet()))
 			}
 		}
 		out[strings.Replace(prog[4:], "-", "_", -1)+"_terminates"] = fmt.Sprintf("%d schedules, all done", tr.Passes[2].Executions)
@@ -272,7 +276,7 @@ func SelfTest() map[string]interface{} {
 		tr := run(prog, nil, []int{0, 1})
 		for _, p := range tr.Passes {
 			if setString(p.OutcomeSet()) != "{livelock:0}" {
-				InternalError("self-test %s bound %d: waiting for a flag nobody sets must be reported as livelock, got %s", prog, p.Bound, setString(p.OutcomeSet()))
+				InternalError("self-test %s bound %d: waiting for a flag nobody sets must be reported as livelock, got %s", prog, p.Rung.Bound, setString(p.OutcomeSet()))
 			}
 		}
 		out[strings.Replace(prog[4:], "-", "_", -1)+"_livelock"] = "reported"
